@@ -281,6 +281,7 @@ func (r *TaskRunner) run(t *Task) {
 			case AbortStatus:
 				// It was actually Done if it got here.
 				t.SetStatus(UndoStatus)
+				holdTasksWaitingOn(t)
 				r.state.EnsureBefore(0)
 			case UndoingStatus:
 				t.SetStatus(UndoneStatus)
@@ -357,8 +358,25 @@ func (r *TaskRunner) abortLanes(chg *Change, lanes []int) {
 	}
 }
 
+// holdTasksWaitingOn puts on hold the tasks waiting on the aborted task t
+// that did not start yet. The abort has already been through everything
+// that waited on t at the time; tasks that the handler of t added to the
+// change after that (see snapstate.InjectTasks) wait on t as well, t is not
+// going to be done any more, and the undo of t in turn waits on them.
+func holdTasksWaitingOn(t *Task) {
+	for _, ht := range t.HaltTasks() {
+		if ht.Status() == DoStatus {
+			ht.SetStatus(HoldStatus)
+			holdTasksWaitingOn(ht)
+		}
+	}
+}
+
 // tryUndo replaces the status of a knowingly aborted task.
 func (r *TaskRunner) tryUndo(t *Task) {
+	if t.Status() == AbortStatus {
+		holdTasksWaitingOn(t)
+	}
 	if t.Status() == AbortStatus && r.handlerPair(t).undo == nil {
 		// Cannot undo but it was stopped in flight.
 		// Hold so it doesn't look like it finished.
